@@ -75,6 +75,15 @@ func buildStore(s storeSetup) (factstore.FactStore, error) {
 	return nil, fmt.Errorf("unknown store kind %q", s.kind)
 }
 
+// newStoreOrNil builds a plain in-memory store of the given kind (nil for wrapper kinds).
+func newStoreOrNil(kind string) factstore.FactStore {
+	switch kind {
+	case "simple", "indexed", "multi", "array":
+		return newStore(kind)
+	}
+	return nil
+}
+
 func atomsSorted(as []mgjson.Atom) []mgjson.Atom {
 	sort.SliceStable(as, func(i, j int) bool { return mgjson.Key(as[i]) < mgjson.Key(as[j]) })
 	return as
@@ -95,6 +104,35 @@ func replayHistory(id any, ops []StoreOp, s storeSetup) (events []any) {
 	fs, err := buildStore(s)
 	if err != nil {
 		panic(err)
+	}
+	// Merge sources stay alive: a store and the store it was merged from are independent sets afterwards.
+	// After every later operation each kept source must still hold exactly what it held; an "alias"
+	// event (which the specification rejects) reports the first difference.
+	type keptSource struct {
+		st    factstore.FactStoreWithRemove
+		atoms map[string]mgjson.Atom
+	}
+	var kept []keptSource
+	marker := mgjson.Atom{P: "zz_marker", A: []any{[]any{"n", 7}}}
+	checkSources := func(after string) {
+		for i, k := range kept {
+			got := map[string]bool{}
+			for _, p := range k.st.ListPredicates() {
+				k.st.GetFacts(ast.NewQuery(p), func(a ast.Atom) error { got[mgjson.Key(mgjson.FromAtom(a))] = true; return nil })
+			}
+			for key := range k.atoms {
+				if !got[key] {
+					events = append(events, map[string]any{"ev": "alias", "detail": fmt.Sprintf("after %s merge source %d lost %s", after, i, key)})
+					return
+				}
+			}
+			for key := range got {
+				if _, ok := k.atoms[key]; !ok {
+					events = append(events, map[string]any{"ev": "alias", "detail": fmt.Sprintf("after %s merge source %d gained %s", after, i, key)})
+					return
+				}
+			}
+		}
 	}
 	for _, op := range ops {
 		switch op.Ev {
@@ -120,9 +158,17 @@ func replayHistory(id any, ops []StoreOp, s storeSetup) (events []any) {
 			}
 			events = append(events, ev)
 		case "merge":
-			src := factstore.NewSimpleInMemoryStore()
+			// the source is a simple store or, every other time, a store of the kind under test
+			var src factstore.FactStoreWithRemove = factstore.NewSimpleInMemoryStore()
+			if len(kept)%2 == 1 {
+				if alt, ok := newStoreOrNil(s.kind).(factstore.FactStoreWithRemove); ok && alt != nil {
+					src = alt
+				}
+			}
+			k := keptSource{src, map[string]mgjson.Atom{}}
 			for _, a := range op.From {
 				src.Add(mgjson.ASTAtom(a))
+				k.atoms[mgjson.Key(a)] = a
 			}
 			fs.Merge(src)
 			from := op.From
@@ -130,6 +176,20 @@ func replayHistory(id any, ops []StoreOp, s storeSetup) (events []any) {
 				from = []mgjson.Atom{}
 			}
 			events = append(events, map[string]any{"ev": "merge", "from": from})
+			// the source changes afterwards: the merged-into store must not follow
+			src.Add(mgjson.ASTAtom(marker))
+			k.atoms[mgjson.Key(marker)] = marker
+			if fs.Contains(mgjson.ASTAtom(marker)) {
+				events = append(events, map[string]any{"ev": "alias", "detail": "a fact added to the merge source afterwards shows up in the store"})
+			}
+			if len(op.From) > 0 {
+				src.Remove(mgjson.ASTAtom(op.From[0]))
+				delete(k.atoms, mgjson.Key(op.From[0]))
+				if !fs.Contains(mgjson.ASTAtom(op.From[0])) {
+					events = append(events, map[string]any{"ev": "alias", "detail": "a fact removed from the merge source afterwards disappeared from the store"})
+				}
+			}
+			kept = append(kept, k)
 		case "preds":
 			var ps []any
 			for _, p := range fs.ListPredicates() {
@@ -142,6 +202,7 @@ func replayHistory(id any, ops []StoreOp, s storeSetup) (events []any) {
 		case "count":
 			events = append(events, map[string]any{"ev": "count", "r": fs.EstimateFactCount()})
 		}
+		checkSources(op.Ev)
 	}
 	return events
 }
